@@ -103,6 +103,9 @@ func gramCases(j run.Job, yield func(c GCase)) {
 			if o.Trims {
 				fam = "random+trims"
 			}
+			if j.Param("suppress", 0) == 1 && g.SuppressSome(r.Intn) > 0 {
+				fam += "+suppress"
+			}
 			// only recursive nonterminals have to be memoized: leave some of the others plain
 			rec := g.RecursiveNTs()
 			for i := range g.NTs {
@@ -139,6 +142,10 @@ func gramCases(j run.Job, yield func(c GCase)) {
 		maxLen := j.Param("maxlen", 10)
 		for gi := 0; gi < j.N; gi++ {
 			g := gram.MutualLR(r)
+			fam := "mutual-lr"
+			if j.Param("suppress", 0) == 1 && g.SuppressSome(r.Intn) > 0 {
+				fam = "mutual-lr+suppress" // left-recursive references that run through SuppressError
+			}
 			for ii := 0; ii < inputs; ii++ {
 				nt := r.Intn(len(g.NTs))
 				bias := 85
@@ -146,7 +153,7 @@ func gramCases(j run.Job, yield func(c GCase)) {
 					bias = 0
 				}
 				in := g.RandomInput(r, nt, maxLen, bias)
-				yield(GCase{G: g, In: in, NT: nt, Fam: "mutual-lr"})
+				yield(GCase{G: g, In: in, NT: nt, Fam: fam})
 			}
 		}
 	case "hidden":
@@ -155,6 +162,10 @@ func gramCases(j run.Job, yield func(c GCase)) {
 		maxLen := j.Param("maxlen", 9)
 		for gi := 0; gi < j.N; gi++ {
 			g := gram.HiddenLRWith(r, j.Param("marks", 0) == 1)
+			fam := "hidden-lr"
+			if j.Param("suppress", 0) == 1 && g.SuppressSome(r.Intn) > 0 {
+				fam = "hidden-lr+suppress"
+			}
 			for ii := 0; ii < inputs; ii++ {
 				nt := r.Intn(len(g.NTs))
 				bias := 85
@@ -162,7 +173,7 @@ func gramCases(j run.Job, yield func(c GCase)) {
 					bias = 0
 				}
 				in := g.RandomInput(r, nt, maxLen, bias)
-				yield(GCase{G: g, In: in, NT: nt, Fam: "hidden-lr"})
+				yield(GCase{G: g, In: in, NT: nt, Fam: fam})
 			}
 		}
 	case "userlist":
